@@ -227,13 +227,10 @@ def header_parts(p):
     dec = [c for c in p.calls() if c['decl'] == 'codec::Codec::decode_header']
     if not dec:
         return None, None, None
-    # header = branch(map_err(decode_header)).Continue.0
-    for c in p.calls():
-        if c['decl'].endswith('Try::branch') and c['args'][0][0] == 'call':
-            m = calls.get(c['args'][0][1])
-            if m and m['res'] == 'core::result::Result::map_err' and m['args'][0] == ('call', dec[0]['id']):
-                h = ('fieldv', ('call', c['id']), '0', 'Continue')
-                return h, ('fieldv', h, 'src', None), ('fieldv', h, 'message', None)
+    # header = Ok payload of decode_header, whichever way it is unwrapped (`?`, `.map_err(..)?`, `match`)
+    for h in q.ok_payloads(p, dec[0]['id']):
+        if q.path_mentions(p, h):
+            return h, ('fieldv', h, 'src', None), ('fieldv', h, 'message', None)
     return None, None, None
 
 
@@ -463,14 +460,14 @@ def r5_suspect_once(ctx, f, rep):
                     for o in rv.get('ops', []):
                         ops.append((o, s['span']))
                     if rv['k'] == 'aggregate' and strip_generics(rv['name']) == 'member::State' and rv['variant'] == 'Suspect':
-                        sites.append((b.nname, s['span']))
+                        sites += [(nm, s['span']) for nm in f.attributed(b)]
             t = bl['term']
             if t['k'] == 'call':
                 for a in t['args']:
                     ops.append((a, t['span']))
             for o, sp in ops:
                 if o['k'] == 'const' and strip_generics(o.get('adt', '')) == 'member::State' and o['val'] == '1':
-                    sites.append((b.nname, sp))
+                    sites += [(nm, sp) for nm in f.attributed(b)]
     fns = sorted({s[0] for s in sites})
     rep.check(fns == ['Foca::probe_random_member'], 'C12-R5', 'member::State', 'single construction site of State::Suspect',
               construct='suspect-sites', facts={'sites': fns})
